@@ -119,7 +119,10 @@ def handle : Handler := fun input impl =>
       ("REJECT", if impl == "REJECT" then "ok" else s!"fail:validation:accepted a configuration outside the domain ({why})")
   | .boundary => ("-", if impl == "REJECT" then "fail:validation:rejected a valid profile" else "skip:level-boundary")
   | .profile parts =>
-    if impl == "REJECT" then ("-", "fail:validation:rejected a valid profile")
+    if impl == "NODOC" then ("-", "skip:no-such-documented-example")
+    else if impl == "REJECT" && (lookup (parseKV input) "doc").isSome then
+      ("-", "fail:doc-example:the load profile exactly as written in docs/*/load-profile.md is rejected by the config decoder")
+    else if impl == "REJECT" then ("-", "fail:validation:rejected a valid profile")
     else if impl == "TOOMANY" then ("-", judgeTooMany parts)
     else if impl == "HANG" then ("-", "fail:hang:the schedule did not finish")
     else if sumI (parts.map fun p => p.countRange.2) > int64Max then ("-", "skip:more-than-int64-operations")
